@@ -242,6 +242,19 @@ class Run:
         sys.exit(1 if self.violations else 0)
 
 
+def tlapm(wd, module, timeout=900, threads=8):
+    """checks the proofs of <module>.tla with the TLA+ proof system; returns (all proved, number of obligations, output)"""
+    try:
+        r = subprocess.run(["tlapm", "--threads", str(threads), module + ".tla"], cwd=wd, capture_output=True, text=True, timeout=timeout)
+        out = r.stdout + r.stderr
+    except subprocess.TimeoutExpired:
+        return False, 0, "tlapm timed out"
+    except FileNotFoundError:
+        return False, 0, "tlapm not installed"
+    m = re.search(r"All (\d+) obligations? proved", out)
+    return bool(m) and r.returncode == 0, int(m.group(1)) if m else 0, out[-2000:]
+
+
 def main_wrapper(fn):
     try:
         fn()
